@@ -206,9 +206,18 @@ func c20Exchange(t *testing.T, s *verifh.Session, j *c20Judge, r *rand.Rand, o *
 		for tg := range g.tags {
 			count("tag:" + tg)
 		}
-	case k == 13:
+	case k == 13 || k == 14:
 		sc.firstStatus = 401
-		switch r.Intn(5) {
+		switch r.Intn(8) {
+		case 5, 6, 7:
+			// the malformed family: one parameter of a grammatical list damaged (must be an ERROR end to end)
+			g := c20GenHeader(r, true)
+			x := r.Intn(len(g.lines))
+			lines := append([]string(nil), g.lines...)
+			var way string
+			lines[x], way = c20DamageParam(r, lines[x])
+			sc.www = lines
+			count("damage:" + way)
 		case 0: // no challenge at all
 		case 1:
 			sc.www = []string{verifh.Pick(r, c20OtherChallenges)}
@@ -667,7 +676,11 @@ func TestVerif_C20_handle(t *testing.T) {
 	}
 	for i := 0; i < n || !c20All(cnt, must); i++ {
 		if i > 20*n {
-			t.Fatalf("declared buckets not reached: %v", cnt)
+			// judge what was collected first: when the implementation never produces an outcome
+			// any more (a malformed challenge no longer an error, say) the cases that should have
+			// produced it are the concrete failing inputs
+			t.Errorf("declared buckets not reached: %v", cnt)
+			break
 		}
 		c20Exchange(t, s, j, r, o, c20Run{identity: true}, known, count)
 	}
@@ -705,7 +718,8 @@ func TestVerif_C20_e2e(t *testing.T) {
 		}
 		for i := 0; i < n || !c20All(cnt, must); i++ {
 			if i > 20*n {
-				t.Fatalf("declared buckets not reached: %v", cnt)
+				t.Errorf("declared buckets not reached: %v", cnt) // the collected cases are judged below
+				break
 			}
 			c20Exchange(t, s, j, r, o, c20Run{h2: h2}, known, tagc)
 		}
